@@ -307,6 +307,19 @@ def parseTlbBits (bs : List Bool) : Outcome MsgAddress :=
       if r.length < ln then .err "eof" else .ok (.var ac (BitVec.ofNat 16 ln) wc (r.take ln))
   | _ => .err "eof"
 
+/-! ### shards and account ids (ton/shards.go ShardID.MatchAccountID on the AccountID itself) -/
+
+/-- `binary.BigEndian.Uint64(a.Address[:8])` -/
+def be64 (bs : List Byte) : BitVec 64 :=
+  bs.getD 0 0 ++ bs.getD 1 0 ++ bs.getD 2 0 ++ bs.getD 3 0 ++ bs.getD 4 0 ++ bs.getD 5 0 ++ bs.getD 6 0 ++ bs.getD 7 0
+
+/-- ShardID.MatchAccountID: the mask/prefix test on the first 8 address bytes read big-endian -/
+def matchAccountID (s : Shard.ShardID) (a : AccountID) : Bool := Shard.matchPrefix s (be64 a.addr)
+
+/-- bit `i` of an address, most significant bit of byte 0 first (the order in which shard prefixes and anycast
+prefixes are matched against an address) -/
+def addrBit (addr : List Byte) (i : Nat) : Bool := (addr.getD (i / 8) 0).getMsbD (i % 8)
+
 /-! ### ADNL address, base32 form -/
 
 def toLower (c : Byte) : Byte := if 65 ≤ c.toNat ∧ c.toNat ≤ 90 then c + 32#8 else c
